@@ -196,6 +196,14 @@ func Main(t *testing.T, property string, components any, prop func(r *Run)) {
 
 	wrapped := func(rt *rapid.T) {
 		r := &Run{T: rt, faults: map[string]int{}, probes: map[string]int{}}
+		// However a run ends (violation, rapid running out of recorded choices while shrinking, panic), it
+		// must not leave its simulation behind: the next run in this process would find it "already active"
+		// and die before logging anything (rapid then reports the violation without its trace).
+		defer func() {
+			if s := simrt.Active(); s != nil {
+				s.Shutdown()
+			}
+		}()
 		prop(r)
 		// reached only when the run passed
 		cur.Runs++
